@@ -1,6 +1,6 @@
 #!/bin/bash
 # tools/run_all.sh [tier] -- run every registered check once (VERIF_SEED from the environment)
-cd /verif
+cd "$(dirname "$0")/.."
 tier=${1:-quick}
 for id in $(python3 -c "import json;print(' '.join(c['property_id'] for c in json.load(open('MANIFEST.json'))['checks']))"); do
   /venv/bin/python -m harness.check $id $tier 2>&1 | tail -1
